@@ -247,6 +247,8 @@ func C06(ctx *core.Ctx) {
 		}
 	}
 
+	ctx.Rule("C06.R7", "responses that arrive together are all delivered: the buffering frame decoder of a reader loop is built once per loop, not per frame", 1)
+	decoderPerLoop(ctx, r, "C06.R7")
 	// ---- R2 -----------------------------------------------------------------
 	reg := r.Named("fRegistryImpl")
 	if reg != nil {
